@@ -196,9 +196,15 @@ where
         Ok(trailer)
     }
     pub fn scan(&self) -> impl Iterator<Item = Result<ScanItem>> + '_ {
-        let xref_offset = self.backend.locate_xref_offset().unwrap();
-        // startxref is relative to the header, like every other offset in the file
-        let slice = self.backend.read(self.start_offset .. self.start_offset + xref_offset).unwrap();
+        // the objects end where the newest cross-reference section starts. the scan is what is left when a
+        // file does not load: without a usable startxref it reads on to the end of the file.
+        // (startxref is relative to the header, like every other offset in the file)
+        let len = self.backend.len();
+        let end = self.backend.locate_xref_offset().ok()
+            .and_then(|offset| self.start_offset.checked_add(offset))
+            .filter(|&end| end <= len)
+            .unwrap_or(len);
+        let slice = self.backend.read(self.start_offset.min(end) .. end).unwrap_or(&[]);
         let mut lexer = Lexer::with_offset(slice, self.start_offset);
         
         fn skip_xref(lexer: &mut Lexer) -> Result<()> {
